@@ -338,7 +338,7 @@ def assemble_unit(unit_name, unit_dir, cfg, extracted, prelude_files, canary=Fal
                                        "_start_out": fn_start}
                 idx += 1
                 continue
-            m = re.match(r'^vx_loop_head!\((\w+), (\d+)\);$', stripped)
+            m = re.match(r'^vx_loop_head!\((\w+), (\w+)\);$', stripped)
             if m:
                 f_, k = m.group(1), m.group(2)
                 j = len(out) - 1
@@ -355,7 +355,7 @@ def assemble_unit(unit_name, unit_dir, cfg, extracted, prelude_files, canary=Fal
                         for t, ln in cl:
                             prefix = indent + (kw + " " if (first and kw != last_kw) else "    ")
                             last_kw = kw
-                            out.append((prefix + t.strip(), {"k": "clause", "fn": f_, "item": name, "kw": kw, "loop": int(k), "name": f"loop{k}.{cname}", "ofile": os.path.relpath(lsec.path, VERIF), "oline": ln, "first": first}))
+                            out.append((prefix + t.strip(), {"k": "clause", "fn": f_, "item": name, "kw": kw, "loop": k, "name": f"loop-{k}.{cname}", "ofile": os.path.relpath(lsec.path, VERIF), "oline": ln, "first": first}))
                             first = False
                 out.append((indent[:-4] + "{", {"k": "gen"}))
                 hsec = find("at", f_, "loop_head", k)
@@ -363,7 +363,7 @@ def assemble_unit(unit_name, unit_dir, cfg, extracted, prelude_files, canary=Fal
                     emit_ghost(out, hsec, indent, f_)
                 idx += 1
                 continue
-            m = re.match(r'^vx_(loop_end|after_loop)!\((\w+), (\d+)\);$', stripped)
+            m = re.match(r'^vx_(loop_end|after_loop)!\((\w+), (\w+)\);$', stripped)
             if m:
                 kind, f_, k = m.group(1), m.group(2), m.group(3)
                 hsec = find("at", f_, kind, k)
@@ -383,7 +383,7 @@ def assemble_unit(unit_name, unit_dir, cfg, extracted, prelude_files, canary=Fal
                 A.functions[cur_fn]["contract"] = False
                 idx += 1
                 continue
-            m = re.match(r'^vx_closure_head!\((\w+), (\d+)\);$', stripped)
+            m = re.match(r'^vx_closure_head!\((\w+), (\w+)\);$', stripped)
             if m:
                 f_, k = m.group(1), m.group(2)
                 csec = find("closure", f_, k)
@@ -407,7 +407,7 @@ def assemble_unit(unit_name, unit_dir, cfg, extracted, prelude_files, canary=Fal
                         for t, ln in cl:
                             prefix = indent + (kw + " " if (first and kw != last_kw) else "    ")
                             last_kw = kw
-                            out.append((prefix + t.strip(), {"k": "clause", "fn": f_, "item": name, "kw": kw, "closure": int(k), "name": f"closure{k}.{cname}", "ofile": os.path.relpath(csec.path, VERIF), "oline": ln, "first": first}))
+                            out.append((prefix + t.strip(), {"k": "clause", "fn": f_, "item": name, "kw": kw, "closure": k, "name": f"closure-{k}.{cname}", "ofile": os.path.relpath(csec.path, VERIF), "oline": ln, "first": first}))
                             first = False
                     out.append((indent[:-4] + "{", {"k": "gen"}))
                 idx += 1
